@@ -232,6 +232,16 @@ Definition op_document (fuel : nat) (C : cfg) (Sc : schema) (frs : list fdef) (i
       end
   end.
 
+(* the sets recorded by the operation's generator (same traversal as op_document) *)
+Definition op_sets (fuel : nat) (C : cfg) (Sc : schema) (frs : list fdef) (ins : list nat) (o : opdef)
+  : res (list string * list string) :=
+  tn <- root_type_name Sc (o_kind o) ;;
+  st <- ptd fuel C Sc frs (map proj_frag frs) (fresh ins) (pascal_s (o_name o)) tn None (o_sel o) false ;;
+  Ok (ps_mix st, ps_unp st).
+
+Definition doc_fragment_names (doc : list ddef) : list string :=
+  flat_map (fun d => match d with XFrag f => [fd_name f] | XOp _ => [] end) doc.
+
 (* every operation of the package, in document order *)
 Definition package_documents (fuel : nat) (C : cfg) (Sc : schema) (frs : list fdef) (ops : list opdef)
   : res (list (list ddef)) :=
